@@ -116,6 +116,13 @@ func (mT *provider) subscriptionInsert(
 ) bool {
 	levels := strings.Split(filter, "/")
 
+	// the counters / remove flag / wait hand-off below do not protect a goroutine that has already
+	// got hold of a node from that node (or its parent) being unlinked by another one: a
+	// subscription could end up in a detached node, and two clean-ups of one node took two
+	// children off its parent. Writers therefore go one at a time
+	mT.structure.Lock()
+	defer mT.structure.Unlock()
+
 	leaf := mT.leafInsertNode(levels)
 
 	// Let's see if the subscriber is already on the list and just update QoS if so
@@ -138,6 +145,9 @@ func (mT *provider) subscriptionRemove(topic string, sub topicsTypes.Subscriber)
 	levels := strings.Split(topic, "/")
 
 	var err error
+
+	mT.structure.Lock()
+	defer mT.structure.Unlock()
 
 	leaf := mT.leafSearchNode(levels)
 	if leaf == nil {
@@ -235,6 +245,9 @@ func (mT *provider) subscriptionSearch(topic string, publishID uintptr, p *publi
 func (mT *provider) retainInsert(topic string, obj vltypes.RetainObject) {
 	levels := strings.Split(topic, "/")
 
+	mT.structure.Lock()
+	defer mT.structure.Unlock()
+
 	root := mT.leafInsertNode(levels)
 
 	root.retained.Store(retainer{val: obj})
@@ -242,6 +255,9 @@ func (mT *provider) retainInsert(topic string, obj vltypes.RetainObject) {
 
 func (mT *provider) retainRemove(topic string) error {
 	levels := strings.Split(topic, "/")
+
+	mT.structure.Lock()
+	defer mT.structure.Unlock()
 
 	root := mT.leafSearchNode(levels)
 	if root == nil {
